@@ -29,6 +29,8 @@ def check_property(prop, tier, units, run_unit, keep=False, jobs=8):
     mine = [u for u in units.values() if prop in u.props and (tier == "thorough" or not getattr(u, "thorough_only", False))]
     ev_path = VERIF / "evidence" / f"{prop}.json"
     ev_path.parent.mkdir(exist_ok=True)
+    if os.environ.get("VERIF_SELFTEST"):
+        ev_path = Path(os.environ.get("VERIF_SELFTEST_EVIDENCE", "/dev/null"))   # self-mutation runs never touch the real evidence
     if not mine:
         print(f"no unit serves {prop}")
         return 2
